@@ -7,8 +7,8 @@ C17 — the typed JSON form of a stack item (pkg/vm/stackitem/json.go:311-535: `
   * `toJSONTyped` writes the text exactly as the code does (type names, base64 without line breaks, decimal integers
     as strings, MaxSize bound on the text).
   * `fromJ` is `FromJSONWithTypes` on a JSON VALUE: which members of `{"type":…,"value":…}` are looked at (case-folded
-    names, last duplicate wins, `null` is "no value"), what each type demands of its value, and where the code PANICS
-    (`NewBigInteger` on an integer beyond 256 bits).
+    names, last duplicate wins, `null` is "no value"), what each type demands of its value; an integer beyond 256 bits is an error
+    (`CheckIntegerSize`; before fix ea79830 `NewBigInteger` panicked on it: flag `old`).
   * `parseJson` reads JSON text of the plain kind the encoder produces — ASCII, no escape sequences — into a value;
     anything else is `unsupported` (encoding/json itself is not modelled).
 Core Lean only.
@@ -398,8 +398,10 @@ def mapKeyOk : Item → Bool
   | _ => false
 
 mutual
-/-- `FromJSONWithTypes` (json.go:445-535) on a parsed value; an absent value (`none`) fails in `json.Unmarshal`. -/
-def fromJ : Nat → Option JVal → Out Item
+/-- `FromJSONWithTypes` (json.go:445-540) on a parsed value; an absent value (`none`) fails in `json.Unmarshal`.
+`old` = the rule before fix ea79830 (an integer beyond 256 bits made NewBigInteger panic), kept for the regression
+example; the code as it is now is `fromJ false`. -/
+def fromJ (old : Bool) : Nat → Option JVal → Out Item
   | 0, _ => .err
   | fuel+1, jv =>
     match jv with
@@ -424,7 +426,9 @@ def fromJ : Nat → Option JVal → Out Item
           | some s =>
             match parseBigInt s with
             | none => .err
-            | some n => if intFits n then .ok (.int (Item.intToLE n)) else .panic   -- NewBigInteger panics
+            | some n =>
+              -- CheckIntegerSize, then NewBigInteger (fix ea79830); before the fix NewBigInteger panicked
+              if intFits n then .ok (.int (Item.intToLE n)) else if old then .panic else .err
         else if t = ([0x42, 0x79, 0x74, 0x65, 0x53, 0x74, 0x72, 0x69, 0x6e, 0x67] : Bytes) ∨ t = ([0x42, 0x75, 0x66, 0x66, 0x65, 0x72] : Bytes) then
           match asString val with
           | none => .err
@@ -435,33 +439,33 @@ def fromJ : Nat → Option JVal → Out Item
         else if t = ([0x41, 0x72, 0x72, 0x61, 0x79] : Bytes) ∨ t = ([0x53, 0x74, 0x72, 0x75, 0x63, 0x74] : Bytes) then
           match asArray val with
           | none => .err
-          | some l => (fromJList fuel l).bind fun xs => .ok (if t = ([0x41, 0x72, 0x72, 0x61, 0x79] : Bytes) then .array xs else .struct xs)
+          | some l => (fromJList old fuel l).bind fun xs => .ok (if t = ([0x41, 0x72, 0x72, 0x61, 0x79] : Bytes) then .array xs else .struct xs)
         else if t = ([0x4d, 0x61, 0x70] : Bytes) then
           match asArray val with
           | none => .err
           | some l =>
             match asMapElems l with
             | none => .err
-            | some es => (fromJPairs fuel es []).bind fun m => .ok (.map m)
+            | some es => (fromJPairs old fuel es []).bind fun m => .ok (.map m)
         else .err
     | _ => .err
-def fromJList : Nat → List JVal → Out (List Item)
+def fromJList (old : Bool) : Nat → List JVal → Out (List Item)
   | 0, _ => .err
   | _, [] => .ok []
-  | fuel+1, x :: xs => (fromJ fuel (some x)).bind fun v => (fromJList fuel xs).bind fun vs => .ok (v :: vs)
-def fromJPairs : Nat → List (Option JVal × Option JVal) → List (Item × Item) → Out (List (Item × Item))
+  | fuel+1, x :: xs => (fromJ old fuel (some x)).bind fun v => (fromJList old fuel xs).bind fun vs => .ok (v :: vs)
+def fromJPairs (old : Bool) : Nat → List (Option JVal × Option JVal) → List (Item × Item) → Out (List (Item × Item))
   | 0, _, _ => .err
   | _, [], acc => .ok acc
   | fuel+1, (k, v) :: rest, acc =>
-    (fromJ fuel k).bind fun kt =>
+    (fromJ old fuel k).bind fun kt =>
       if !mapKeyOk kt then .err
-      else (fromJ fuel v).bind fun vt => fromJPairs fuel rest (Item.mapAdd acc kt vt)
+      else (fromJ old fuel v).bind fun vt => fromJPairs old fuel rest (Item.mapAdd acc kt vt)
 end
 
 /-- the whole decoder on plain JSON text; `none` = the text is outside the modelled subset. -/
 def fromJSONTyped (b : Bytes) : Option (Out Item) :=
   match Json.parse b with
-  | .ok v _ => some (fromJ (b.length + 2) (some v))
+  | .ok v _ => some (fromJ false (b.length + 2) (some v))
   | .err => some .err
   | .unsupported => none
 
